@@ -73,12 +73,29 @@ def gen_wsdl(r, idx, force=None):
         W["messages"].append({"name": name, "parts": parts})
         return name
 
+    if force.get("shadow_parts"):
+        feats.append("part-shadows-prefix")
+
+    def decl_mode(p_fresh, p_shadow):
+        # how the part's QName gets its prefix: the document's usual prefix (False), a fresh prefix declared on the
+        # part ("fresh"), or a prefix that the enclosing scope (root: binding, message, other parts) binds to a
+        # DIFFERENT namespace, redeclared on the part ("shadow": XML Namespaces scoping, the innermost binding wins)
+        if "shadow_parts" in force:
+            return "shadow" if force["shadow_parts"] else False
+        k = r.random()
+        mode = "fresh" if k < p_fresh else "shadow" if k < p_fresh + p_shadow else False
+        if mode == "shadow" and "part-shadows-prefix" not in feats:
+            feats.append("part-shadows-prefix")
+        return mode
+
     def el_part(name, el, local_decl=None):
         return {"name": name, "element": el, "type": None,
-                "local_decl": (r.random() < 0.15) if local_decl is None else local_decl}
+                "local_decl": decl_mode(0.15, 0.15) if local_decl is None else local_decl,
+                "shadow_px": r.choice(["soap", "tns", "types"] * 5 + ["xsd"])}
 
     def ty_part(name, kind, ty):
-        return {"name": name, "element": None, "type": (kind, ty), "local_decl": False}
+        return {"name": name, "element": None, "type": (kind, ty), "local_decl": decl_mode(0.0, 0.12) and "shadow",
+                "shadow_px": r.choice(["soap", "tns", "types"] * 5 + ["xsd"])}
 
     n_ops_total = force.get("n_ops") or r.choice([1, 1, 2, 2, 3, 4])
     layout = force.get("layout") or r.choices(["one", "two_bindings", "same_binding", "two_services"], [62, 22, 8, 8])[0]
@@ -108,6 +125,7 @@ def gen_wsdl(r, idx, force=None):
             if ostyle is None and bstyle is None:
                 feats.append("style-undeclared")
             rpc = style == "rpc"
+            W["any_rpc"] = W.get("any_rpc") or rpc
             # ---- input message
             in_parts, hdr = [], None
             if rpc:
@@ -268,12 +286,29 @@ def gen_wsdl(r, idx, force=None):
         eb = [n for n in names if r.random() < 0.5 or "Header" in n]
         W["split"] = {"imported": moved, "types": types, "elements_b": eb}
         feats.append("wsdl-import:" + types + ":" + "+".join(k[0] for k in moved))
+        # the imported document has its own namespace declarations: the same prefixes bound the other way round
+        # (tns <-> types, xsd <-> soap), so a QName must be resolved in the scope of the element that carries it
+        # (fragment limit kept by wf_definitions: build_message_class resolves the portType's QName of an rpc message in
+        #  the scope of the wsdl:message element, so with rpc operations both must see the same bindings: same file)
+        same_scope = ("messages" in moved) == ("port_types" in moved) or not W.get("any_rpc")
+        if (sp_.get("px_b") if "px_b" in sp_ else r.random() < 0.5) and same_scope:
+            px = W["px"]
+            W["split"]["px_b"] = {"tns": px["types"] or px["tns"], "types": px["tns"] if px["types"] else None,
+                                  "xsd": px["soap"], "soap": px["xsd"], "wsdl": px["wsdl"]}
+            feats.append("wsdl-import-rebinds-prefixes")
     return W
 
 
 # ------------------------------------------------------------------ rendering
 def render(W):
-    px = W["px"]
+    files = _render_px(W, W["px"])
+    px_b = (W.get("split") or {}).get("px_b")
+    if px_b:
+        files["defs.wsdl"] = _render_px(W, px_b)["defs.wsdl"]
+    return files
+
+
+def _render_px(W, px):
     w = (px["wsdl"] + ":") if px["wsdl"] else ""
     xs, sp, tp = px["xsd"], px["soap"], px["tns"]
     typ = px["types"] or tp
@@ -342,14 +377,19 @@ def render(W):
     for m in W["messages"]:
         out.append(f'  <{w}message name={q(m["name"])}>')
         for p in m["parts"]:
-            if p["element"]:
-                if p["local_decl"]:
-                    out.append(f'    <{w}part name={q(p["name"])} element={q("q1:" + p["element"])} xmlns:q1={q(W["types_ns"])}/>')
-                else:
-                    out.append(f'    <{w}part name={q(p["name"])} element={q(typ + ":" + p["element"])}/>')
-            else:
-                kind, ty = p["type"]
-                out.append(f'    <{w}part name={q(p["name"])} type={q((xs if kind == "xsd" else typ) + ":" + ty)}/>')
+            kind, local = ("types", p["element"]) if p["element"] else p["type"]
+            uri = XSD_NS if kind == "xsd" else W["types_ns"]
+            pre, decl = (xs if kind == "xsd" else typ), ""
+            mode = p.get("local_decl")
+            if mode == "shadow":
+                # a prefix this document's root binds to another namespace, rebound on the part itself
+                root_bound = {sp: SOAP_NS, tp: W["tns"], xs: XSD_NS, typ: W["types_ns"]}
+                cand = {"soap": sp, "xsd": xs, "tns": tp, "types": typ}[p.get("shadow_px") or "soap"]
+                pre = cand if root_bound[cand] != uri else sp
+                decl = f' xmlns:{pre}={q(uri)}'
+            elif mode:
+                pre, decl = "q1", f' xmlns:q1={q(uri)}'
+            out.append(f'    <{w}part name={q(p["name"])} {"element" if p["element"] else "type"}={q(pre + ":" + local)}{decl}/>')
         out.append(f'  </{w}message>')
     out = sec["port_types"]
     for pt in W["port_types"]:
@@ -434,7 +474,25 @@ def _trim(nsmap, *qnames):
     return sorted(([k, u] for k, u in out.items()), key=lambda kv: kv[0] or "")
 
 
-def read_lxml(text, finish=True):
+COMMON_NS = [("xs", XSD_NS), ("xsi", "http://www.w3.org/2001/XMLSchema-instance"),
+             ("xml", "http://www.w3.org/XML/1998/namespace"), ("xlink", "http://www.w3.org/1999/xlink")]
+
+
+def _scope(nsmap, defect):
+    """the namespace declarations in scope of an element; with `defect` the reading that finding C17-F12 describes
+    (SchemaParser.set_namespace_map: a common prefix xs/xsi/xml/xlink whose namespace is bound to no prefix in scope
+    is (re)bound to that namespace, even when the document binds the prefix to another namespace there)"""
+    if not defect:
+        return nsmap
+    out = dict(nsmap)
+    present = set(out.values())
+    for pre, uri in COMMON_NS:
+        if uri not in present:
+            out[pre] = uri
+    return out
+
+
+def read_lxml(text, finish=True, defect=False):
     from lxml import etree
 
     root = etree.fromstring(text.encode("utf-8"))
@@ -458,7 +516,7 @@ def read_lxml(text, finish=True):
     for m in kids(root, W_ + "message"):
         D["messages"].append({"name": m.get("name"), "ns": [], "parts": [
             {"name": p.get("name"), "element": p.get("element"), "type": p.get("type"),
-             "ns": _trim(p.nsmap, p.get("element"), p.get("type"))} for p in kids(m, W_ + "part")]})
+             "ns": _trim(_scope(p.nsmap, defect), p.get("element"), p.get("type"))} for p in kids(m, W_ + "part")]})
     # the message's own declarations matter only for the prefixes portTypes use to refer to it: fill below
     msg_el = {m.get("name"): m for m in kids(root, W_ + "message")}
     used = {}
@@ -469,7 +527,7 @@ def read_lxml(text, finish=True):
         v = el.get("message")
         local = v.split(":", 1)[1] if ":" in v else v
         used.setdefault(local, set()).add(v)
-        return {"name": el.get("name"), "message": v, "ns": _trim(el.nsmap, v)}
+        return {"name": el.get("name"), "message": v, "ns": _trim(_scope(el.nsmap, defect), v)}
 
     def first(el, name):
         k = kids(el, name)
@@ -483,7 +541,7 @@ def read_lxml(text, finish=True):
              "faults": [ptm(f) for f in kids(op, W_ + "fault")]} for op in kids(pt, W_ + "operation")]})
     for m in D["messages"]:
         el = msg_el[m["name"]]
-        m["_nsmap"] = dict(el.nsmap)          # trimmed by finish_message_ns once every portType is known
+        m["_nsmap"] = dict(_scope(el.nsmap, defect))          # trimmed by finish_message_ns once every portType is known
 
     def bmsg(el):
         if el is None:
@@ -523,7 +581,7 @@ def read_lxml(text, finish=True):
                         "faults": [f.get("name") for f in kids(op, W_ + "fault")]})
         if sb:
             only_attrs(sb[0], {"transport", "style"})
-        D["bindings"].append({"name": b.get("name"), "type": b.get("type"), "ns": _trim(b.nsmap, b.get("type")),
+        D["bindings"].append({"name": b.get("name"), "type": b.get("type"), "ns": _trim(_scope(b.nsmap, defect), b.get("type")),
                               "soap": {"style": sb[0].get("style"), "transport": sb[0].get("transport")} if sb else None,
                               "operations": ops})
     for s in kids(root, W_ + "service"):
@@ -532,7 +590,7 @@ def read_lxml(text, finish=True):
             ad = exts(p)
             if len(ad) > 1 or any(e.tag != S_ + "address" for e in ad):
                 raise ValueError("unsupported extension of wsdl:port")
-            ports.append({"name": p.get("name"), "binding": p.get("binding"), "ns": _trim(p.nsmap, p.get("binding")),
+            ports.append({"name": p.get("name"), "binding": p.get("binding"), "ns": _trim(_scope(p.nsmap, defect), p.get("binding")),
                           "address": ad[0].get("location") if ad else None})
         D["services"].append({"name": s.get("name"), "ports": ports})
     return finish_message_ns(D) if finish else D
@@ -552,12 +610,12 @@ def finish_message_ns(D):
     return D
 
 
-def read_lxml_files(files, name="svc.wsdl", seen=()):
+def read_lxml_files(files, name="svc.wsdl", seen=(), defect=False):
     """the document `name` with the WSDL documents it reaches by wsdl:import appended (components of the
     importing document first, as WSDL 1.1 2.1.1 makes both sets available under one target namespace)"""
     from lxml import etree
 
-    D = read_lxml(files[name], finish=False)
+    D = read_lxml(files[name], finish=False, defect=defect)
     root = etree.fromstring(files[name].encode("utf-8"))
     for imp in root:
         if isinstance(imp.tag, str) and imp.tag == "{%s}import" % WSDL_NS:
@@ -566,7 +624,7 @@ def read_lxml_files(files, name="svc.wsdl", seen=()):
                 continue        # an XML Schema imported at WSDL level: no WSDL components
             if loc not in files or loc in seen:
                 raise ValueError("unresolvable wsdl:import " + loc)
-            sub = read_lxml_files(files, loc, seen + (name,))
+            sub = read_lxml_files(files, loc, seen + (name,), defect)
             if sub["tns"] != D["tns"] or imp.get("namespace") != D["tns"]:
                 raise ValueError("wsdl:import of another target namespace is outside the fragment")
             for k in ("messages", "port_types", "bindings", "services"):
